@@ -622,6 +622,125 @@ struct Judge {
   // objects) serves a build that is cancelled from inside its cancelAt-th status callback (optionally with a command
   // directed to fail and another one slowed down), then - cause removed, optionally every source edited - a second
   // build and a null build. The later builds must give the clean-build result whatever the first one left behind.
+  // ---- built-in tools that can fail without any process: mkdir (path occupied by a file / missing declared input) and
+  // symlink (the parent of the link is a file).  History: [prior successful build], cause put in place, failing build,
+  // failing build again, repair (cause removed; "present": the tool's output additionally made by hand, so that it
+  // exists although the recorded result is a failure), build, null build.
+  struct ToolSc { int tool; int cause; int repair; int prior; };   // tool 0 mkdir 1 symlink; cause 0 obstructed 1 missing-input; repair 0 plain 1 present
+  static const char* toolName(int t) { return t == 0 ? "mkdir" : "symlink"; }
+  static const char* causeName(int c) { return c == 0 ? "obstructed" : "missing-input"; }
+  static const char* repairName(int r) { return r == 0 ? "plain" : "output-present"; }
+  std::string specOf(const ToolSc& t) const {
+    return std::string("kt|") + toolName(t.tool) + "|" + causeName(t.cause) + "|" + repairName(t.repair) + "|" + std::to_string(t.prior);
+  }
+  std::string toolYaml(const ToolSc& t) const {
+    std::string out = t.tool == 0 ? "out" : "ld/lnk";
+    std::string y = "client:\n  name: basic\ntargets:\n  \"all\": [\"o2\"]\ncommands:\n";
+    y += "  \"T\":\n    tool: " + std::string(toolName(t.tool)) + "\n    inputs: " + (t.cause == 1 ? "[\"stamp\"]" : "[]") + "\n    outputs: [" + yq(out) + "]\n";
+    if (t.tool == 1) y += "    contents: \"../s1\"\n";
+    Strs a{gVcmd, "cat", "USE", "o2", "--"};
+    a.push_back(t.tool == 0 ? "s1" : "ld/lnk");
+    y += "  \"USE\":\n    tool: shell\n    inputs: " + yqList(t.tool == 0 ? Strs{out, "s1"} : Strs{out}) + "\n    outputs: [\"o2\"]\n    args: " + yqList(a) + "\n";
+    return y;
+  }
+  void makeOutputByHand(Sandbox& sb, const ToolSc& t) {
+    if (t.tool == 0) { if (mkdir(sb.p("out").c_str(), 0755) != 0) fatal("mkdir out by hand"); }
+    else {
+      mkdir(sb.p("ld").c_str(), 0755);
+      if (symlink("../s1", sb.p("ld/lnk").c_str()) != 0) fatal("symlink by hand");
+    }
+  }
+  void runTool(const ToolSc& t) {
+    const std::string spec = specOf(t);
+    const std::string what = std::string(toolName(t.tool)) + " command T feeding shell command USE [keep-going, 1 lane] cause=" + causeName(t.cause) + " repair=" + repairName(t.repair) +
+                             " prior=" + std::to_string(t.prior);
+    Sandbox sb;
+    sb.create(gScratch + "/" + std::to_string(++sandboxNo));
+    if (chdir(sb.root.c_str()) != 0) fatal("chdir sandbox");
+    sb.write("s1", "s1:0");
+    sb.rawWrite("build.llbuild", toolYaml(t));
+    res.count("evaluations");
+    res.count("tool_scenarios");
+    const std::string outPath = t.tool == 0 ? "out" : "ld/lnk";
+    // reference: what a clean build of this description leaves in o2 (own sandbox, no database)
+    std::string want;
+    {
+      Sandbox ref;
+      ref.create(gScratch + "/" + std::to_string(++sandboxNo));
+      if (chdir(ref.root.c_str()) != 0) fatal("chdir sandbox");
+      ref.write("s1", "s1:0");
+      if (t.cause == 1) ref.write("stamp", "stamp");
+      ref.rawWrite("build.llbuild", toolYaml(t));
+      BuildObs o = runBuild(ref, 1, false);
+      if (!o.ok) fatal(what + ": the reference clean build failed\n" + o.output);
+      want = ref.observe("o2");
+      if (chdir(sb.root.c_str()) != 0) fatal("chdir sandbox");
+      ref.destroy();
+    }
+    auto show = [&](const char* label, const BuildObs& o) {
+      if (verbose) printf("  %s: ok=%d failures=%u ran=[%s] started=[%s]\n%s", label, (int)o.ok, o.failures, join(o.ran, " ").c_str(), join(o.started, " ").c_str(), o.output.c_str());
+    };
+    if (t.prior) {
+      if (t.cause == 1) sb.write("stamp", "stamp");
+      BuildObs o = runBuild(sb, 1, true);
+      show("prior build", o);
+      if (!o.ok || sb.observe("o2") != want) fatal(what + ": the prior build failed\n" + o.output);
+      if (t.cause == 0) { sb.remove(t.tool == 0 ? "out" : "ld"); }   // the obstruction replaces the output
+      sb.remove("o2");
+    }
+    // the cause
+    if (t.cause == 0) sb.write(t.tool == 0 ? "out" : "ld", "obstruction");
+    else sb.remove("stamp");
+    if (t.cause == 1 && t.prior == 0 && t.repair == 1) makeOutputByHand(sb, t);   // the output exists all along although T cannot succeed
+    bool reached = false;
+    for (int round = 1; round <= 2; ++round) {
+      BuildObs o = runBuild(sb, 1, true);
+      show(round == 1 ? "failing build" : "failing build again", o);
+      if (!o.initialized) fatal(what + ": description did not load\n" + o.output);
+      bool useRan = std::find(o.ran.begin(), o.ran.end(), "USE") != o.ran.end();
+      if (useRan)
+        res.violate("C10.kt-consumer-ran-after-tool-failure", what + ": USE executed in failing build #" + std::to_string(round) + " although T cannot succeed", spec);
+      if (o.ok)
+        res.violate(std::string("C10.kt-build-reported-success-although-tool-command-failed") + (round == 2 ? "-second-build" : ""),
+                    what + ": failing build #" + std::to_string(round) + " reported success although T cannot succeed (" + causeName(t.cause) + "); ran [" + join(o.ran, " ") + "]", spec);
+      else reached = true;
+    }
+    if (reached) res.count("distinct_nontrivial");
+    // repair
+    if (t.cause == 0) {
+      sb.remove(t.tool == 0 ? "out" : "ld");
+      if (t.repair == 1) makeOutputByHand(sb, t);
+    } else {
+      sb.write("stamp", "stamp");
+      if (t.repair == 1 && !sb.exists(outPath)) makeOutputByHand(sb, t);
+    }
+    BuildObs o3 = runBuild(sb, 1, true);
+    show("build after repair", o3);
+    if (!o3.ok)
+      res.violate("C10.kt-build-after-repair-failed", what + ": the build after the repair failed: " + o3.output, spec);
+    else {
+      std::string got = sb.observe("o2");
+      if (got != want)
+        res.violate(std::string("C10.kt-no-convergence-after-repair-") + (got == "<missing>" ? "missing-output" : "wrong-output"),
+                    what + ": the build after the repair reported success but o2 is '" + got + "', a clean build leaves '" + want + "' (ran [" + join(o3.ran, " ") + "])", spec);
+      else res.count("converged_after_repair");
+      BuildObs o4 = runBuild(sb, 1, true);
+      show("null build", o4);
+      if (!o4.ok || !o4.ran.empty())
+        res.violate("C10.kt-null-build-not-clean", what + ": the null build after convergence returned " + std::to_string((int)o4.ok) + " and ran [" + join(o4.ran, " ") + "]", spec);
+    }
+    if (chdir("/") != 0) {}
+    sb.destroy();
+  }
+  static std::vector<ToolSc> toolScenarios() {
+    std::vector<ToolSc> v;
+    for (int tool = 0; tool < 2; ++tool)
+      for (int cause = 0; cause < (tool == 0 ? 2 : 1); ++cause)
+        for (int repair = 0; repair < 2; ++repair)
+          for (int prior = 0; prior < 2; ++prior) v.push_back({tool, cause, repair, prior});
+    return v;
+  }
+
   struct Reuse { int desc; int fail; int kind; int slow; int lanes; int edit; long cancelAt; };
   std::string specOf(const Reuse& r) const {
     const Desc& d = descs[r.desc];
@@ -1110,6 +1229,18 @@ int main(int argc, char** argv) {
     size_t hash = s.find(" #");
     if (hash != std::string::npos) s = s.substr(0, hash);
     Strs f = split(s, '|');
+    if (f.size() == 5 && f[0] == "kt") {
+      bool found = false;
+      for (auto& t : Judge::toolScenarios())
+        if (J.specOf(t) == s) { J.verbose = true; J.runTool(t); found = true; }
+      if (!found) { fprintf(stderr, "kgx: bad replay spec '%s'\n", args.replaySpec.c_str()); wipe(gScratch, true); return 3; }
+      res.count("builds", gBuilds);
+      for (auto& v : res.violations) printf("VIOLATION %s: %s\n", v.cls.c_str(), v.what.c_str());
+      if (res.violations.empty()) printf("no violation\n");
+      wipe(gScratch, true);
+      res.write(args.out);
+      return res.violations.empty() ? 0 : 1;
+    }
     Item it{-1, -1, 0, -1, 0, 0};
     bool ok = f.size() == 7 && f[0] == "kg";
     if (ok) {
@@ -1171,6 +1302,11 @@ int main(int argc, char** argv) {
     size_t r = (size_t)(((args.seed % (long long)mine.size()) + (long long)mine.size()) % (long long)mine.size());
     std::rotate(mine.begin(), mine.begin() + r, mine.end());
   }
+  {
+    auto ts = Judge::toolScenarios();
+    for (size_t i = 0; i < ts.size(); ++i)
+      if ((int)(i % (size_t)args.nshards) == args.shard) J.runTool(ts[i]);
+  }
   for (size_t idx : mine) {
     if (args.overBudget()) { res.exhaustive = false; res.count("work_items_skipped_budget"); continue; }
     J.run(items[idx]);
@@ -1186,6 +1322,9 @@ int main(int argc, char** argv) {
       "} x flag {none, allow-modified-outputs, allow-missing-inputs on the failing commands, the same two on EVERY shell command} x EVERY non-empty subset of shell commands" +
       (thorough ? "" : " of size 1 and 2") + " directed to fail x kind {fail-before, fail-after, kill-after, term-after" + (thorough ? ", kill-before" : "") + "} x lanes " +
       (thorough ? "{1, 2, 3, 4}" : "{1, 4}") + " x prior successful build {no, yes}" +
+      ". Tool scenarios: a mkdir / symlink command T feeding a shell command, T failing because its path is occupied by a file (mkdir), the parent of the link is a file (symlink) or a "
+      "declared input of the mkdir is missing x repair {cause removed, cause removed AND the tool's output made by hand so that it exists beside a recorded failure} x prior successful build {no, yes}: "
+      "two failing builds must report failure and not run the consumer, the build after the repair must reach the clean-build output, the null build must run nothing"
       ". evaluations = scenarios run; every tuple is enumerated once so each is distinct; distinct_nontrivial = scenarios in whose first failing build at least one directed command "
       "was really executed and failed (measured from exec.log)";
 
